@@ -5,10 +5,10 @@ PROVED (coq/Properties_C10.v over the models coq/Config.v and coq/Aggregate.v):
   (offset,bytes) pairs: gather + sort + merge + coalesce + one write by the aggregator == every rank
   writing its own pairs; for ANY sorted permutation the unstable sort may produce), disjoint writes
   commute, the groups of ncmpio_intra_node_aggr_init partition the ranks (1..8 ranks), flatten_req
-  against the row-major spec (REFUTED for a strided record dimension, proved otherwise),
+  == the row-major spec for every accepted request (the pre-fix code is refuted: record stride),
   ibuf_pack_equiv / ibuf_unpack_equiv, swap_mode_equiv, offsets_only_by_alignment (non-interference
   over the configuration record), align_precedence + env_over_info, reported_hints_in_force,
-  hash sizes (REFUTED: 0 is accepted).
+  hash sizes always positive (the pre-fix code is refuted: 0 was accepted).
 TIE (re-established on every run):
   1. differential correspondence: generated logical programs (blocking puts/gets, all forms but varm,
      typed/flexible, contiguous/vector buffers, invalid requests, name lookups, attributes) are laid
@@ -305,6 +305,8 @@ def info_cases(ctx, info_exe, wd, stats, n):
         hook = prng.choice([None, None, '64', '4096'])
         safe = prng.choice([None, '0', '1', ''])
         np_ = prng.choice([1, 1, 2])
+        # MPI_Info_set overrides: a key given twice on the MPI_Info side keeps its last value
+        user = list({k: v for k, v in user}.items())
         cases.append(dict(p=p, user=user, envs=envs, ea=ea, hook=hook, safe=safe, np=np_))
     def run_one(ix):
         c = cases[ix]
@@ -324,14 +326,18 @@ def info_cases(ctx, info_exe, wd, stats, n):
         return C.mpirun(c['np'], info_exe, args, env=env, timeout=120)
     with cf.ThreadPoolExecutor(max_workers=8) as ex:
         outs = list(ex.map(run_one, range(len(cases))))
+    for ix in range(len(cases)):
+        if outs[ix][0] != 0 or 'D done' not in outs[ix][1]:
+            first = outs[ix]
+            outs[ix] = run_one(ix)          # once more, on its own
+            if outs[ix][0] == 0 and 'D done' in outs[ix][1]:
+                TRANSIENT.append(dict(tag='info%d' % ix, first='rc %d' % first[0], output=first[1][-300:]))
     body = ''
     for ix, c in enumerate(cases):
         ea = c['ea'] or [0, 0, 0, 0]
         body += 'Eval vm_compute in (%d, enddef_case %s %s %s %s %d %s (mkeargs %s)).\n' % (
             ix, G.coq_info(c['user']), G.coq_opt_str(c['envs']), G.coq_opt_str(c['hook']), G.coq_opt_str(c['safe']),
             c['np'], G.coq_hdr(c['p']), ' '.join('(%d)' % x for x in ea))
-        body += 'Eval vm_compute in (%d, (if env_has_null_value %s then [1] else [0], [0], [0])).\n' % (
-            100000 + ix, G.coq_opt_str(c['envs']))
     res, out, rc = coq_eval(wd, body, 'info')
     if rc != 0:
         ctx.violation('corr_C10_hints: the model cases do not compile', dict(log=out[-2000:]), no_input=True)
@@ -346,14 +352,7 @@ def info_cases(ctx, info_exe, wd, stats, n):
         if v is None:
             bad.append((c, 'model produced nothing', pout)); continue
         nums_open, nums_end, lay = v
-        nullflag = (res.get(100000 + ix) or [[0]])[0][0]
-        if nullflag == 1:
-            # the model says combine_env_hints calls MPI_Info_set(key, NULL): the library aborts
-            # there (reported separately under PNETCDF_HINTS:empty-value:abort)
-            stats['info_null_value_cases'] = stats.get('info_null_value_cases', 0) + 1
-            if 'D done' in pout and prc == 0:
-                bad.append((c, 'model: MPI_Info_set with a NULL value, library: completes', pout))
-            continue
+
         rep = {'create': {}, 'enddef': {}, 'open': {}}
         L = {}
         st = {}
@@ -412,19 +411,24 @@ def info_cases(ctx, info_exe, wd, stats, n):
                       dict(info=c['user'], PNETCDF_HINTS=c['envs'], enddef=c['ea'], PNETCDF_VERIF_HDR_CHUNK=c['hook'],
                            PNETCDF_SAFE_MODE=c['safe'], nprocs=c['np'], output=pout[-1500:], why=why),
                       key='reported-hints:not-in-force')
-    # an empty value in PNETCDF_HINTS ("key="): the model flags MPI_Info_set(key, NULL)
-    d = os.path.join(wd, 'infonull'); os.makedirs(d, exist_ok=True)
-    e = dict(os.environ); e['PNETCDF_HINTS'] = 'nc_ibuf_size='
-    prc, pout = C.sh([info_exe, os.path.join(d, 'f.nc'), '1', 'x=3', 'v:4:0', '-'], env=e, timeout=60)
-    res2, out2, rc2 = coq_eval(wd, 'Eval vm_compute in (0, (if env_has_null_value (Some (B "nc_ibuf_size=")) then [1] else [0], [0], [0])).\n', 'null')
-    stats['env_empty_value'] = dict(rc=prc, completed=('D done' in pout), model_flags=(res2.get(0) or [[None]])[0][0])
-    ctx.count('c10_info PNETCDF_HINTS="nc_ibuf_size="', nontrivial=True)
-    if 'D done' not in pout or prc != 0:
-        ctx.violation('PNETCDF_HINTS="nc_ibuf_size=" (empty value) aborts the program: combine_env_hints passes a NULL value to '
-                      'MPI_Info_set (MPI_ERR_INFO_VALUE under MPI_ERRORS_ARE_FATAL) although ill-formed hints are meant to be skipped',
-                      dict(PNETCDF_HINTS='nc_ibuf_size=', rc=prc, output=pout[-800:],
-                           how_to_replay='PNETCDF_HINTS="nc_ibuf_size=" <c10_info> f.nc 1 x=3 v:4:0 -'),
-                      key='PNETCDF_HINTS:empty-value:abort')
+    # regression input: an empty value in PNETCDF_HINTS ("key=", "key= v") used to reach
+    # MPI_Info_set(key, NULL) and abort the job; it must be skipped like any ill-formed hint
+    for hs in ('nc_ibuf_size=', 'nc_ibuf_size= 77;nc_var_align_size=64'):
+        d = os.path.join(wd, 'infonull'); os.makedirs(d, exist_ok=True)
+        e = dict(os.environ); e.update(ENV_BASE); e['PNETCDF_HINTS'] = hs
+        prc, pout = C.sh([info_exe, os.path.join(d, 'f.nc'), '1', 'x=3', 'v:4:0', '-'], env=e, timeout=120)
+        if prc == -9:
+            prc, pout = C.sh([info_exe, os.path.join(d, 'f.nc'), '1', 'x=3', 'v:4:0', '-'], env=e, timeout=480)
+        ctx.count('c10_info PNETCDF_HINTS=%r' % hs, nontrivial=True)
+        ok = 'D done' in pout and prc == 0 and 'I create nc_ibuf_size=16777216' in pout
+        stats.setdefault('env_empty_value', []).append(dict(hints=hs, rc=prc, completed=('D done' in pout), default_ibuf=ok))
+        if not ok:
+            ctx.violation('PNETCDF_HINTS=%r (empty value) is not skipped: combine_env_hints passes a NULL value to MPI_Info_set '
+                          '(MPI_ERR_INFO_VALUE under MPI_ERRORS_ARE_FATAL aborts the job) or the value is not ignored' % hs,
+                          dict(PNETCDF_HINTS=hs, rc=prc, output=pout[-800:],
+                               how_to_replay='PNETCDF_HINTS="%s" <c10_info> f.nc 1 x=3 v:4:0 -' % hs),
+                          key='PNETCDF_HINTS:empty-value:abort')
+            break
 
 
 # ---------------------------------------------------------------------------------- 3. aggregation vs model
@@ -655,6 +659,9 @@ def sanitizer_cases(ctx, wd, stats, thorough):
 
 # ---------------------------------------------------------------------------------- driver
 def run(ctx):
+    import glob
+    for old_replay in glob.glob(os.path.join(C.VERIF, 'replay', '%s-%s-*.json' % (ctx.pid, ctx.tier))):
+        os.remove(old_replay)           # replay files of an earlier run of this tier
     lib = C.libdir()
     impl = S.impl_exe(lib)
     info_exe = C.build_c(lib, [os.path.join(C.VERIF, 'harness', 'c10_info.c')], 'c10_info')
@@ -668,7 +675,7 @@ def run(ctx):
     stats = dict(runs=0, pairs_compared=0, oracle_failures=0, nprocs={}, dims={}, aggr_active_runs=0,
                  layout_checked=0, layout_mismatches=0, info_cases=0, info_mismatches=0, aggr_cases=0)
     layout_cases = []
-    progs = differential(ctx, impl, wd, stats, nprog=(170 if thorough else 24), nextra=(5 if thorough else 1),
+    progs = differential(ctx, impl, wd, stats, nprog=(110 if thorough else 24), nextra=(4 if thorough else 1),
                          layout_cases=layout_cases)
     model_layout_check(ctx, wd, stats, layout_cases, proof_ok)
     info_cases(ctx, info_exe, wd, stats, n=(150 if thorough else 24))
